@@ -62,5 +62,7 @@ for patch in "$ROOT"/selfcheck/benign/*/patch.diff; do
     else verdict="quiet"; clean=$((clean+1)); fi
     printf "%-44s %-7s%s  %s\n" "$name" "$tests" "$codes" "$verdict"
 done
+# C20-c3 probes the file system once per name: ~10^8 negative dentries stay behind and slow every later process start.
+( sync; echo 2 > /proc/sys/vm/drop_caches ) 2>/dev/null || true
 echo "benign: quiet=$clean alarms=$alarms invalid=$invalid"
 [ $alarms -eq 0 ] && [ $invalid -eq 0 ]
